@@ -436,6 +436,20 @@ func BVBin(op Op, a, b *Term) *Term {
 				return a
 			}
 		}
+		// constant factors are collected and distributed over "+ constant" (valid modulo 2^w):
+		// (x*k1)*k2 => x*(k1*k2), (x + c)*k => x*k + c*k. Unit conversions (ms -> ns in two steps, seconds plus a
+		// sub-second part) then meet their inverse divisions in a recognisable y*k + c shape.
+		if a.IsConst() && !b.IsConst() {
+			a, b = b, a
+		}
+		if b.IsConst() {
+			if a.Op == OpBVMul && a.Args[1].IsConst() {
+				return BVBin(OpBVMul, a.Args[0], BV(w, a.Args[1].C*b.C))
+			}
+			if a.Op == OpBVAdd && a.Args[1].IsConst() {
+				return BVBin(OpBVAdd, BVBin(OpBVMul, a.Args[0], b), BV(w, a.Args[1].C*b.C))
+			}
+		}
 	case OpBVAnd:
 		if a.IsConst() {
 			if a.C == 0 {
